@@ -44,13 +44,15 @@ type vC12tc struct {
 	closes  int
 }
 
-func (c *vC12tc) IsClosed() bool                   { return c.closed }
-func (c *vC12tc) Transport() transport.Transport   { return c.tpt }
-func (c *vC12tc) RemotePeer() peer.ID              { return c.p }
-func (c *vC12tc) RemoteMultiaddr() ma.Multiaddr    { return nil }
-func (c *vC12tc) RemotePublicKey() ic.PubKey       { return nil }
-func (c *vC12tc) Stat() network.ConnStats          { return network.ConnStats{Stats: network.Stats{Limited: c.limited}} }
-func (c *vC12tc) Close() error                     { c.closes++; c.closed = true; return nil }
+func (c *vC12tc) IsClosed() bool                 { return c.closed }
+func (c *vC12tc) Transport() transport.Transport { return c.tpt }
+func (c *vC12tc) RemotePeer() peer.ID            { return c.p }
+func (c *vC12tc) RemoteMultiaddr() ma.Multiaddr  { return nil }
+func (c *vC12tc) RemotePublicKey() ic.PubKey     { return nil }
+func (c *vC12tc) Stat() network.ConnStats {
+	return network.ConnStats{Stats: network.Stats{Limited: c.limited}}
+}
+func (c *vC12tc) Close() error { c.closes++; c.closed = true; return nil }
 
 type vC12rcmgr struct {
 	network.ResourceManager
